@@ -65,8 +65,8 @@ _CFG = {
 
 # extra Lean modules per property (beyond Tea.Props.Cxx and Tea.Props.Bridge.Cxx)
 _EXTRA = {
-    "C08": ["Tea.Props.BridgeInput"], "C09": ["Tea.Props.BridgeInput"], "C10": ["Tea.Props.BridgeInput"],
-    "C11": ["Tea.Props.BridgeInput"], "C15": ["Tea.Props.BridgeInput"],
+    "C08": ["Tea.Props.BridgeInput", "Tea.Props.BridgeC08"], "C09": ["Tea.Props.BridgeInput"], "C10": ["Tea.Props.BridgeInput"],
+    "C11": ["Tea.Props.BridgeInput"], "C15": ["Tea.Props.BridgeInput", "Tea.Props.BridgeInputC15"],
 }
 
 PROPS = {}
